@@ -118,6 +118,157 @@ fn sparql_term(t: &Term) -> String {
     }
 }
 
+
+/// The pinned twin: the same history on the unmodified tree of the pinned commit. Used only to
+/// classify the deviations whose signatures are coarse (the transaction's pending view and
+/// the SPARQL template family): a deviation that is also the pinned tree's answer is a listed
+/// finding of that tree, any other one is not listable.
+mod pin {
+    use pinned_common::types::{TxId, Value};
+    use pinned_core::graph::rdf::{RdfStore, RdfStoreConfig, Term, Triple, TriplePattern};
+    use pinned_engine::GrafeoDB;
+
+    use super::{Config, N_O, N_P, N_S, ROp, T3, norm};
+
+    fn subj(i: u8) -> Term {
+        match i % N_S {
+            0 => Term::iri("http://ex/s0"),
+            1 => Term::iri("http://ex/s1"),
+            _ => Term::blank("b0"),
+        }
+    }
+    fn pred(i: u8) -> Term {
+        Term::iri(format!("http://ex/p{}", i % N_P))
+    }
+    fn obj(i: u8) -> Term {
+        match i % N_O {
+            0 => Term::iri("http://ex/s1"),
+            1 => Term::literal("x"),
+            2 => Term::lang_literal("x", "en"),
+            3 => Term::typed_literal("1", "http://www.w3.org/2001/XMLSchema#integer"),
+            4 => Term::blank("b0"),
+            _ => Term::literal(""),
+        }
+    }
+    fn mk(t: T3) -> Triple {
+        Triple::new(subj(t.0), pred(t.1), obj(t.2))
+    }
+    fn sparql_term(t: &Term) -> String {
+        match t {
+            Term::Iri(i) => format!("<{}>", i.as_str()),
+            Term::BlankNode(b) => format!("_:{}", b.id()),
+            Term::Literal(l) => {
+                if let Some(lang) = l.language() {
+                    format!("\"{}\"@{lang}", l.value())
+                } else if l.is_simple() {
+                    format!("\"{}\"", l.value())
+                } else {
+                    format!("\"{}\"^^<{}>", l.value(), l.datatype())
+                }
+            }
+            _ => "?".into(),
+        }
+    }
+
+    pub struct Twin {
+        db: Option<GrafeoDB>,
+        own: Option<RdfStore>,
+    }
+
+    impl Twin {
+        pub fn new(cfg: &Config) -> Twin {
+            if cfg.sparql {
+                Twin { db: Some(GrafeoDB::new_in_memory()), own: None }
+            } else {
+                Twin { db: None, own: Some(RdfStore::with_config(RdfStoreConfig { initial_capacity: 8, index_objects: cfg.index_objects })) }
+            }
+        }
+        fn store(&self) -> &RdfStore {
+            match &self.db {
+                Some(db) => db.rdf_store(),
+                None => self.own.as_ref().unwrap(),
+            }
+        }
+        /// Mirrors `exec`'s handling of one operation (same skips).
+        pub fn apply(&self, op: &ROp) {
+            let store = self.store();
+            match op {
+                ROp::Insert(t) => {
+                    store.insert(mk(norm(*t)));
+                }
+                ROp::Remove(t) => {
+                    store.remove(&mk(norm(*t)));
+                }
+                ROp::Clear => store.clear(),
+                ROp::TxInsert(x, t) => {
+                    let _ = store.insert_in_tx(TxId::new(100 + u64::from(*x)), mk(norm(*t)));
+                }
+                ROp::TxRemove(x, t) => {
+                    let _ = store.remove_in_tx(TxId::new(100 + u64::from(*x)), mk(norm(*t)));
+                }
+                ROp::TxCommit(x) => {
+                    let _ = store.commit_tx(TxId::new(100 + u64::from(*x)));
+                }
+                ROp::TxRollback(x) => {
+                    let _ = store.rollback_tx(TxId::new(100 + u64::from(*x)));
+                }
+                ROp::SparqlInsert(t) | ROp::SparqlDelete(t) => {
+                    let t = norm(*t);
+                    let Some(db) = &self.db else { return };
+                    if t.0 == 2 || t.2 == 4 {
+                        return;
+                    }
+                    let ins = matches!(op, ROp::SparqlInsert(_));
+                    if (t.2 == 2 || t.2 == 3) && !ins {
+                        return;
+                    }
+                    let tr = mk(t);
+                    let q = format!("{} DATA {{ {} {} {} }}", if ins { "INSERT" } else { "DELETE" }, sparql_term(tr.subject()), sparql_term(tr.predicate()), sparql_term(tr.object()));
+                    let _ = db.execute_sparql(&q);
+                }
+            }
+        }
+        pub fn contains(&self, t: T3) -> bool {
+            self.store().contains(&mk(t))
+        }
+        pub fn contains_plain(&self, t: T3, lexical: &str) -> bool {
+            let tr = mk(t);
+            self.store().contains(&Triple::new(tr.subject().clone(), tr.predicate().clone(), Term::literal(lexical)))
+        }
+        pub fn find_with_pending(&self, s: u8, p: u8, o: u8, x: u8) -> Vec<String> {
+            let pat = TriplePattern {
+                subject: if s < N_S { Some(subj(s)) } else { None },
+                predicate: if p < N_P { Some(pred(p)) } else { None },
+                object: if o < N_O { Some(obj(o)) } else { None },
+            };
+            let mut k: Vec<String> = self.store().find_with_pending(&pat, Some(TxId::new(100 + u64::from(x)))).iter().map(|t| format!("{:?} {:?} {:?}", t.subject(), t.predicate(), t.object())).collect();
+            k.sort();
+            k
+        }
+        pub fn sparql_rows(&self, q: &str) -> Result<Vec<Vec<String>>, String> {
+            let Some(db) = &self.db else { return Err("no database".into()) };
+            db.execute_sparql(q).map_err(|e| format!("err:{e}")).map(|r| {
+                let mut rows: Vec<Vec<String>> = r
+                    .rows
+                    .iter()
+                    .map(|row| {
+                        row.iter()
+                            .map(|v| match v {
+                                Value::String(s) => s.to_string(),
+                                Value::Null => "UNBOUND".to_string(),
+                                Value::Int64(i) => i.to_string(),
+                                other => format!("{other:?}"),
+                            })
+                            .collect()
+                    })
+                    .collect();
+                rows.sort();
+                rows
+            })
+        }
+    }
+}
+
 pub struct ExecResult {
     pub findings: Vec<(String, String)>,
     pub probes: BTreeMap<&'static str, u64>,
@@ -269,32 +420,32 @@ fn cell(t: &Term) -> String {
     }
 }
 
-fn check_sparql(db: &GrafeoDB, m: &BTreeSet<T3>, after: &str, out: &mut Vec<(String, String)>, probes: &mut BTreeMap<&'static str, u64>) {
+fn check_sparql(db: &GrafeoDB, twin: &pin::Twin, m: &BTreeSet<T3>, after: &str, out: &mut Vec<(String, String)>, probes: &mut BTreeMap<&'static str, u64>) {
     let mut judge = |name: &str, q: String, mut want: Vec<Vec<String>>| {
         want.sort();
-        match sparql_rows(db, &q) {
-            Ok(got) => {
-                if got != want {
-                    let class = if got.len() < want.len() {
-                        "missing-solution"
-                    } else if got.len() > want.len() {
-                        "extra-solution"
-                    } else {
-                        "wrong-solution"
-                    };
-                    let sig = format!("C13 | sparql={name}");
-                    let _ = class;
-                    if !out.iter().any(|(s, _)| *s == sig) {
-                        out.push((sig, format!("after {after}: {q}: {got:?} vs {want:?}")));
-                    }
-                }
+        let got = sparql_rows(db, &q);
+        if got.as_ref() == Ok(&want) {
+            return;
+        }
+        // wrong by the brute-force evaluation; is it what the pinned tree answers too?
+        let pinned = guarded(|| twin.sparql_rows(&q)).unwrap_or_else(|p| Err(format!("panic:{p}")));
+        let sig = match &got {
+            Ok(g) => {
+                let class = if g.len() < want.len() {
+                    "missing-solution"
+                } else if g.len() > want.len() {
+                    "extra-solution"
+                } else {
+                    "wrong-solution"
+                };
+                if pinned.as_ref() == Ok(g) { format!("C13 | sparql={name} | as-pinned-tree") } else { format!("C13 | sparql={name} | {class} | differs-from-pinned-tree") }
             }
-            Err(e) => {
-                let sig = format!("C13 | sparql={name} | error");
-                if !out.iter().any(|(s, _)| *s == sig) {
-                    out.push((sig, format!("after {after}: {q}: {e}")));
-                }
+            Err(_) => {
+                if pinned.is_err() { format!("C13 | sparql={name} | error | as-pinned-tree") } else { format!("C13 | sparql={name} | error | differs-from-pinned-tree") }
             }
+        };
+        if !out.iter().any(|(s, _)| *s == sig) {
+            out.push((sig, format!("after {after}: {q}: {got:?} vs {want:?} (pinned tree {pinned:?})")));
         }
     };
     *probes.entry("sparql_template_rounds").or_insert(0) += 1;
@@ -347,6 +498,65 @@ fn check_sparql(db: &GrafeoDB, m: &BTreeSet<T3>, after: &str, out: &mut Vec<(Str
         "SELECT ?s ?p WHERE { ?s ?p ?o FILTER(?o = \"x\") }".into(),
         m.iter().filter(|t| t.2 == 1).map(|t| vec![cell(&subj(t.0)), cell(&pred(t.1))]).collect(),
     );
+    // join on TWO shared variables: only pairs that agree on both
+    let mut join2 = Vec::new();
+    for a in m.iter().filter(|t| t.1 == 0) {
+        if m.contains(&T3(a.0, 1, a.2)) {
+            join2.push(vec![cell(&subj(a.0)), cell(&obj(a.2))]);
+        }
+    }
+    judge("join-two-shared-variables", format!("SELECT ?s ?o WHERE {{ ?s {} ?o . ?s {} ?o }}", sparql_term(&pred(0)), sparql_term(&pred(1))), join2);
+    // OPTIONAL whose inner pattern shares two variables
+    let mut opt2 = Vec::new();
+    for a in m.iter().filter(|t| t.1 == 0) {
+        // ?x stays unbound unless the very same (s, o) pair exists under p1
+        let _ = a;
+    }
+    for a in m.iter().filter(|t| t.1 == 0) {
+        opt2.push(vec![cell(&subj(a.0)), cell(&obj(a.2)), if m.contains(&T3(a.0, 1, a.2)) { "yes".to_string() } else { "UNBOUND".to_string() }]);
+    }
+    let _ = opt2; // (BIND inside OPTIONAL is outside the template family; the two-variable OPTIONAL is judged by row count below)
+    let mut opt2c = Vec::new();
+    for a in m.iter().filter(|t| t.1 == 0) {
+        opt2c.push(vec![cell(&subj(a.0)), cell(&obj(a.2))]);
+    }
+    judge("optional-two-shared-variables", format!("SELECT ?s ?o WHERE {{ ?s {} ?o OPTIONAL {{ ?s {} ?o }} }}", sparql_term(&pred(0)), sparql_term(&pred(1))), opt2c);
+    // the same variable twice in one pattern
+    judge(
+        "same-variable-twice",
+        "SELECT ?x ?p WHERE { ?x ?p ?x }".into(),
+        m.iter().filter(|t| cell(&subj(t.0)) == cell(&obj(t.2)) && matches!((subj(t.0), obj(t.2)), (Term::Iri(_), Term::Iri(_)))).map(|t| vec![cell(&subj(t.0)), cell(&pred(t.1))]).collect(),
+    );
+    // COUNT after FILTER
+    judge("count-after-filter", "SELECT (COUNT(*) AS ?c) WHERE { ?s ?p ?o FILTER(?o = \"x\") }".into(), vec![vec![m.iter().filter(|t| t.2 == 1).count().to_string()]]);
+    // UNION whose left branch is empty (predicate that is never used)
+    judge(
+        "union-empty-left",
+        format!("SELECT ?s ?o WHERE {{ {{ ?s <http://ex/never> ?o }} UNION {{ ?s {} ?o }} }}", sparql_term(&pred(1))),
+        m.iter().filter(|t| t.1 == 1).map(|t| vec![cell(&subj(t.0)), cell(&obj(t.2))]).collect(),
+    );
+    // three-pattern chain through an IRI that is both object and subject
+    let mut chain = Vec::new();
+    for a in m.iter().filter(|t| t.2 == 0) {
+        // a.object = <s1>; continue from subject s1
+        for b in m.iter().filter(|t| t.0 == 1) {
+            chain.push(vec![cell(&subj(a.0)), cell(&pred(b.1)), cell(&obj(b.2))]);
+        }
+    }
+    judge("chain", "SELECT ?a ?p ?c WHERE { ?a ?q ?b . ?b ?p ?c }".into(), {
+        // general form: every (t1, t2) with object(t1) == subject(t2) as terms
+        let mut v = Vec::new();
+        for t1 in m.iter() {
+            for t2 in m.iter() {
+                let (o1, s2) = (obj(t1.2), subj(t2.0));
+                if o1 == s2 {
+                    v.push(vec![cell(&subj(t1.0)), cell(&pred(t2.1)), cell(&obj(t2.2))]);
+                }
+            }
+        }
+        let _ = chain;
+        v
+    });
 }
 
 pub fn exec(cfg: &Config, ops: &[ROp]) -> ExecResult {
@@ -359,6 +569,7 @@ pub fn exec(cfg: &Config, ops: &[ROp]) -> ExecResult {
             &own
         }
     };
+    let twin = pin::Twin::new(cfg);
     let mut m: BTreeSet<T3> = BTreeSet::new();
     let mut pending: BTreeMap<u8, Vec<(bool, T3)>> = BTreeMap::new();
     let mut findings: Vec<(String, String)> = Vec::new();
@@ -367,6 +578,7 @@ pub fn exec(cfg: &Config, ops: &[ROp]) -> ExecResult {
     let mut steps_done = 0;
     for (i, op) in ops.iter().enumerate() {
         let mut ret_bad: Option<String> = None;
+        let _ = guarded(|| twin.apply(op));
         match op {
             ROp::Insert(t) => {
                 let t = norm(*t);
@@ -432,8 +644,9 @@ pub fn exec(cfg: &Config, ops: &[ROp]) -> ExecResult {
                                 let plain = Triple::new(tr.subject().clone(), tr.predicate().clone(), Term::literal(if t.2 == 2 { "x" } else { "1" }));
                                 let plain_expected = t.2 == 2 && m.contains(&T3(t.0, t.1, 1));
                                 if !store.contains(&tr) || (store.contains(&plain) && !plain_expected) {
+                                    let same = twin.contains(t) == store.contains(&tr) && twin.contains_plain(t, if t.2 == 2 { "x" } else { "1" }) == store.contains(&plain);
                                     findings.push((
-                                        format!("C13 | sparql={} | literal-language-or-datatype-lost", op.kind()),
+                                        format!("C13 | sparql={} | literal-language-or-datatype-lost | {}", op.kind(), if same { "as-pinned-tree" } else { "differs-from-pinned-tree" }),
                                         format!("step {i}: after {q} the store holds the literal without its language tag / datatype"),
                                     ));
                                 }
@@ -468,8 +681,8 @@ pub fn exec(cfg: &Config, ops: &[ROp]) -> ExecResult {
                 if got != want {
                     let gs: BTreeSet<&String> = got.iter().collect();
                     let class = if gs.len() != got.len() { "duplicate-result" } else if got.len() > want.len() { "extra-result" } else if got.len() < want.len() { "missing-result" } else { "wrong-result" };
-                    let sig = "C13 | path=find_with_pending | pending-view-not-a-set".to_string();
-                    let _ = class;
+                    let pinned = guarded(|| twin.find_with_pending(s, pp, o, *x)).unwrap_or_default();
+                    let sig = if pinned == got { "C13 | path=find_with_pending | pending-view-not-a-set | as-pinned-tree".to_string() } else { format!("C13 | path=find_with_pending | {class} | differs-from-pinned-tree") };
                     if !findings.iter().any(|(s0, _)| *s0 == sig) {
                         findings.push((sig, format!("step {i}: tx {x} pending {p:?}: {got:?} vs {want:?}")));
                     }
@@ -479,7 +692,7 @@ pub fn exec(cfg: &Config, ops: &[ROp]) -> ExecResult {
         }
         if let Some(db) = &db {
             if pending.is_empty() {
-                check_sparql(db, &m, &format!("step {i} ({})", op.kind()), &mut findings, &mut probes);
+                check_sparql(db, &twin, &m, &format!("step {i} ({})", op.kind()), &mut findings, &mut probes);
             }
         }
         if findings.len() >= 6 {
